@@ -698,6 +698,25 @@ def run(ctx):
         return
     ctx.sample({"workspace": "W5", "sequence": seq_str(w5res[-1].seq), "observed": w5res[-1].pieces[-1][:160]})
 
+    # ---- redo chains: a redo entry undone and redone again, then redone ONCE MORE (by id and by `latest`), one second apart
+    #      (same-second repeats are refused for the duplicate id before this matters); A' has a replacement that contains the
+    #      search term, so a second application still finds its text.  Needs 6-8 commands: beyond the exhaustive depth.
+    chains = []
+    for first in ("A'", "A"):
+        base = [(first, 0), ("u0", 1), ("r0", 1), ("u2", 1)]
+        for again in ("r2", "rl"):
+            for last in ("r2", "rl", "r0"):
+                for dt_last in (1, 0):
+                    chains.append(("W1", base + [(again, 1), (last, dt_last)]))
+        chains.append(("W1", base + [("r2", 1), ("u4", 1), ("r4", 1), ("r4", 1)]))
+        chains.append(("W1", base + [("r2", 1), ("u4", 1), ("r4", 1), ("r2", 1), ("rl", 1)]))
+        chains.append(("W1", base + [("rl", 1), ("ul", 1), ("rl", 1), ("rl", 1), ("r0", 1)]))
+    cres = run_parallel([(lambda d, ws=ws, seq=seq: run_sequence(d, ws, seq)) for ws, seq in chains])
+    ctx.count("redo-chains:sequences", len(cres))
+    if judge(ctx, cres):
+        return
+    ctx.sample({"workspace": "W1", "sequence": seq_str(cres[0].seq), "steps": cres[0].classes})
+
     # ---- random, longer ------------------------------------------------------------------------------
     n_rand = 400 if ctx.thorough else 40
     rseqs = []
